@@ -13,6 +13,7 @@ def spec(tier):
         jobs.append(Job("hooks", "h_ident", ["--mode=default", "--trials=%d" % (6 * m), "--first=%d" % (i * 6 * m)], ncpu=[None, 4, 2, 1][i], timeout=600, tag="h_ident:specific:%d" % i))
     jobs.append(Job("asan", "h_ident", ["--mode=default", "--trials=%d" % (3 * m), "--first=900"], timeout=600, tag="h_ident:specific:asan"))
     jobs.append(Job("hooks", "h_mainq", ["--trials=%d" % (2 * m), "--first=70"], timeout=300, tag="h_mainq"))
+    jobs.append(Job("hooks", "h_mainq", ["--mode=cf", "--trials=%d" % (2 * m), "--first=270"], timeout=300, tag="h_mainq:cf"))
     if tier == "thorough":
         jobs.append(Job("dbg", "h_ident", ["--mode=default", "--trials=%d" % (6 * m), "--first=2000"], timeout=900, tag="h_ident:specific:dbg"))
     floors = {
